@@ -18,6 +18,17 @@ struct Violation {
     Json toJson() const { Json j = Json::O(); j.set("prop", Json::S(prop)); j.set("oracle", Json::S(oracle)); j.set("sig", sig); j.set("detail", Json::S(detail)); return j; }
 };
 
+inline bool propMatches(const Str& want, const Str& have) {      // want: empty (any) or a comma separated list of property ids
+    if (want.empty()) return true;
+    size_t p = 0;
+    while (p <= want.size()) { size_t q = want.find(',', p); if (q == Str::npos) q = want.size(); if (want.compare(p, q - p, have) == 0) return true; p = q + 1; }
+    return false;
+}
+
+// the properties the caller asked about (empty = all): a violation of another property is recorded but need not end the run
+inline Str& wantedProps() { static Str w; return w; }
+inline bool wantsProp(const char* prop) { return propMatches(wantedProps(), prop); }
+
 struct RunResult {
     uint64_t hash;
     Vec<Violation> viols;
@@ -30,6 +41,7 @@ struct RunResult {
         viols.push_back(v);
     }
     void fail(const char* prop, const char* oracle, const Str& detail) { fail(prop, oracle, Json::O(), detail); }
+    bool hasWanted() const { for (size_t i = 0; i < viols.size(); i++) if (wantsProp(viols[i].prop.c_str())) return true; return false; }
 };
 
 // process-wide counters: faults that actually fired, coverage probes
@@ -205,12 +217,6 @@ inline uint64_t runSeed(Engine& e, const Args& a, uint64_t i) {
     return mix64(mix64(mix64(a.seed, strhash(e.name())), strhash(a.profile.c_str())), i);
 }
 
-inline bool propMatches(const Str& want, const Str& have) {      // want: empty (any) or a comma separated list of property ids
-    if (want.empty()) return true;
-    size_t p = 0;
-    while (p <= want.size()) { size_t q = want.find(',', p); if (q == Str::npos) q = want.size(); if (want.compare(p, q - p, have) == 0) return true; p = q + 1; }
-    return false;
-}
 
 inline Json countersJson() {
     Json j = Json::O();
@@ -225,6 +231,7 @@ inline int driverMain(int argc, char** argv, Engine& e) {
         return 2;
     }
     setvbuf(stdout, 0, _IOLBF, 0);
+    wantedProps() = a.prop;
     {   // a run must not depend on the signal dispositions and mask the caller happens to hand down (nohup, background jobs, SIGCHLD ignored)
         static const int sigs[] = { SIGHUP, SIGINT, SIGQUIT, SIGTERM, SIGPIPE, SIGALRM, SIGUSR1, SIGUSR2, SIGCHLD, SIGCONT, SIGTSTP, SIGTTIN, SIGTTOU, SIGVTALRM, SIGPROF, SIGURG, SIGWINCH, SIGIO, SIGXCPU, SIGXFSZ };
         for (size_t i = 0; i < sizeof sigs / sizeof sigs[0]; i++) signal(sigs[i], SIG_DFL);
